@@ -16,7 +16,7 @@ import numpy as np
 from harness import common as C
 
 HEADER = """From Coq Require Import List ZArith QArith Bool. Import ListNotations.
-From TLV Require Import Base.Shape Base.PyList Base.Tensor Base.Ops Model.Nonneg Model.NonnegSign Model.NonnegFlow Model.NonnegOptions Model.NonnegP2Ls Model.NonnegCcpSpec Corr.C10.
+From TLV Require Import Base.Shape Base.PyList Base.Tensor Base.Ops Model.Nonneg Model.NonnegSign Model.NonnegFlow Model.NonnegOptions Model.NonnegP2Ls Model.NonnegCcpSpec Model.NonnegMask Corr.C10.
 Local Open Scope nat_scope."""
 EPD = "tensorly.decomposition."
 ENTRY = {"nn_cp_mu": EPD + "non_negative_parafac", "nn_cp_hals": EPD + "non_negative_parafac_hals",
@@ -542,6 +542,30 @@ def gen_parafac2_user_ls_configs(tier, rng):
                    opts=dict(tol=1e-300, normalize=(k % 7 == 0), linesearch={"user_nn_modes": ls_nn}, n_iter_parafac=(5 if k % 9 == 0 else 1)))
 
 
+def gen_tucker_mu_signed_configs(tier, rng):
+    """round 8: non_negative_tucker (multiplicative updates) on tensors with NEGATIVE entries, caps 1 / 2 / 3, tol 0, every built-in start and an entrywise positive
+    user start: the projection of signed data onto the current non-negative factors (the numerator of the CORE update, tucker_to_tensor((tensor, factors),
+    transpose_factors=True)) has negative components, as have the numerators of the factor updates: only the clips of the numerators keep core and factors >= 0"""
+    for k in range(10 if tier == "quick" else 60):
+        order = (2, 3, 3, 2, 4)[k % 5]
+        shape = tuple(rng.randint(2, 4 if order < 4 else 3) for _ in range(order))
+        # all-negative / mostly negative data with an ODD cap are the decisive inputs (every numerator is negative; with an even cap two sign errors can cancel)
+        klass = ("signed", "negative", "mostly-negative", "negative", "sparse")[k % 5]
+        X = gen_tensor(rng, shape, "negative" if klass == "mostly-negative" else klass)
+        if klass == "mostly-negative":
+            X.flat[rng.randrange(X.size)] = 0.5 + rng.random()
+        if not (X < 0).any():
+            X.flat[rng.randrange(X.size)] = -1.0 - rng.random()
+        ranks = [rng.randint(1, min(3, s_)) for s_ in shape]
+        ini = ("random", "user", "svd")[(k // 5 + k % 5) % 3] if klass != "negative" else ("random", "user")[(k // 5) % 2]
+        if ini == "user":
+            core, fs = user_tucker_init(rng, shape, ranks)
+            ini = {"core": core + 0.05, "factors": [f + 0.05 for f in fs]}
+        n = (1, 3)[(k // 5) % 2] if klass in ("negative", "mostly-negative") else (1, 2, 3)[k % 3]
+        yield dict(algo="nn_tucker_mu", tensor=X, klass="mu-signed:" + klass, rank=list(ranks), init=ini, n=n, rs=rng.randrange(10 ** 6), nn_modes="all",
+                   opts=dict(tol=0, normalize=(k % 4 == 3)))
+
+
 def quiet_run(cfg):
     with warnings.catch_warnings():
         warnings.simplefilter("ignore")
@@ -739,6 +763,8 @@ def run(chk):
     for gen in (gen_sparsity_bound_configs, gen_ccp_spec_configs, gen_parafac2_user_ls_configs):
         for cfg in gen(chk.tier, rng7):
             evaluate_cfg(chk, cfg, stats)
+    for cfg in gen_tucker_mu_signed_configs(chk.tier, random.Random(chk.seed * 7919 + 8)):      # round 8 stream, own generator
+        evaluate_cfg(chk, cfg, stats)
     for cfg in gen_solver_cfgs(chk.tier, rng):
         evaluate_solver(chk, cfg, stats)
     stage("decomposition_runs")
@@ -761,7 +787,10 @@ def run(chk):
                        "non_negative_tucker_hals are re-translated from the current source by an ast translator into programs of Model/NonnegSign.v and the sign analysis (sound by "
                        "C10_sign_analysis_sound) is evaluated on them inside Coq: every assignment of the body, in any order, keeps weights / factors / core entrywise >= 0; corr:C10-flow: see FLOW_TARGETS "
                        "(round 7: peeled active_set_nnls from a signed start, hals_nnls / fista flow-sensitively, constrained_parafac per registered mode, line_step for any nn_modes list); round 7 executed ops: OP2RunG "
-                       "(partial nn_modes, own / user line search), OCcpE (raw non_negative argument), OHalsCpE with updated modes that are not declared")
+                       "(partial nn_modes, own / user line search), OCcpE (raw non_negative argument), OHalsCpE with updated modes that are not declared; round 8: part A stream non_negative_tucker (MU) on "
+                       "all-negative / mostly negative / signed / sparse data at caps 1-3 (odd caps for the all-negative data), executed ops OMuCpMask (non_negative_parafac with a 0/1 mask: imputation by the current "
+                       "reconstruction before every mode update, exact rationals), OHalsCold (hals_nnls with V=None on the recorded tl.solve answer, toleranced), OHalsNzr (nonzero_rows=True on inputs where binary "
+                       "floating point is exact, compared with atol 0)")
     chk.assumptions = ["exact-arithmetic semantics: floating-point rounding is not modelled (bounded empirically by the toleranced comparison); IEEE inf / NaN are outside the model",
                        "every data- or LAPACK-dependent quantity of the iteration skeletons is an arbitrary function argument (the theorems quantify over all of them); only the formula layer "
                        "and the complete multiplicative-update runs are executed against the implementation",
@@ -772,6 +801,8 @@ def run(chk):
                     "the ast translator harness/props/C10_sign.py (Python expression -> bag-of-entries expression; versioning of re-assigned locals; alias classes for element updates; "
                     "`return a, b` returns the decomposition first; the specialisation `mode in nn_modes` = True for nn_modes='all')",
                     "numpy einsum recomputation of the non_negative_tucker numerators (conditioning test and the formula-level OMuTk cases)",
+                    "OMuCpMask: masks with entries in {0, 1} only (C10_masked_imputation_idempotent is what makes the state-function oracle equal to the code's cumulative overwrite); "
+                    "OHalsCold: the answer of tl.solve is recorded by interposing tl.solve inside the harness process",
                     "the momentum coefficients of fista are recomputed in Python (data independent) and passed to the model as exact rationals"]
     chk.cov["decomposition_runs_checked"] = stats["checked"]
     chk.cov["runs_with_negative_entries_on_undeclared_modes"] = stats["undeclared_negative"]
@@ -1155,7 +1186,7 @@ def corr_tucker_full(rng, tier):
     from tensorly.decomposition import non_negative_tucker
     out, skipped = [], 0
     eps = 10e-12
-    nrun = 10 if tier == "quick" else 36
+    nrun = 10 if tier == "quick" else 16
     for k in range(nrun):
         order = rng.choice([2, 2, 2, 3])
         shape = tuple(rng.randint(2, 3) for _ in range(order)) if order == 2 else (2, 2, 2)
@@ -1221,7 +1252,7 @@ def corr_hals_cp(rng, tier):
     its own stopping rule, up to 100 sweeps), executed by the model at the fixed-point carrier"""
     from tensorly.decomposition import non_negative_parafac_hals
     out = []
-    nrun = 5 if tier == "quick" else 40
+    nrun = 4 if tier == "quick" else 14
     for k in range(nrun):
         order = rng.choice([2, 3, 3])
         big = tier != "quick"
@@ -1264,7 +1295,7 @@ def corr_tucker_hals(rng, tier):
     model's own UtM / UtU with the inner stopping rule, FISTA core step with the recorded step size (SVD oracle), normalisation"""
     from tensorly.decomposition import non_negative_tucker_hals
     out = []
-    nrun = 5 if tier == "quick" else 36
+    nrun = 5 if tier == "quick" else 14
     for k in range(nrun):
         order = rng.choice([2, 3, 3])
         shape = tuple(rng.randint(2, 4 if tier != "quick" else 3) for _ in range(order))
@@ -1328,7 +1359,7 @@ def corr_aset(rng, tier):
     """active_set_nnls called directly vs the statement-by-statement transcription (exact rationals, elimination for the passive blocks)"""
     from tensorly.solvers.nnls import active_set_nnls
     out = []
-    nrun = 14 if tier == "quick" else 120
+    nrun = 14 if tier == "quick" else 60
     for k in range(nrun):
         r = rng.randint(1, 4 if tier == "quick" else 5)
         m = rng.randint(r, r + 3)
@@ -1361,7 +1392,7 @@ def corr_tucker_aset(rng, tier):
     """complete runs of non_negative_tucker_hals(algorithm='active_set'), 0 or 1 outer sweeps, from a user initialisation"""
     from tensorly.decomposition import non_negative_tucker_hals
     out = []
-    nrun = 6 if tier == "quick" else 36
+    nrun = 5 if tier == "quick" else 18
     for k in range(nrun):
         order = rng.choice([2, 3, 3])
         shape = tuple(rng.randint(2, 4 if tier != "quick" else 3) for _ in range(order))
@@ -1441,6 +1472,112 @@ def corr_line(rng, tier, chk):
     return out
 
 
+def corr_mu_cp_mask(rng, tier):
+    """round 8: complete runs of non_negative_parafac WITH A MASK (0/1 entries, about a quarter unobserved) from a user initialisation, tol=0: before every mode update the
+    unobserved entries are replaced by the current reconstruction (Model/NonnegMask.v cp_mu_num_mask); dyadic few-bit inputs, exact rationals"""
+    from tensorly.decomposition import non_negative_parafac
+    import tensorly as tl
+    eps = float(tl.eps(np.float64))
+    out = []
+    for k in range(5 if tier == "quick" else 24):
+        order = rng.choice([2, 2, 3])
+        shape = tuple(rng.randint(2, 3) for _ in range(order))
+        rank = rng.choice([1, 2]) if order == 2 else 1
+        klass = rng.choice(["signed", "signed", "nonneg", "sparse", "negative"])
+        lo, hi, zp = {"signed": (-3, 3, 0), "nonneg": (0, 3, 0), "negative": (-3, -0.25, 0), "sparse": (-3, 3, 0.6)}[klass]
+        X = dy_mat(rng, 1, int(np.prod(shape)), lo, hi, zero_prob=zp).reshape(shape)
+        mask = np.array([0.0 if rng.random() < 0.3 else 1.0 for _ in range(X.size)]).reshape(shape)
+        if mask.all():
+            mask.flat[rng.randrange(X.size)] = 0.0
+        Fs = [dy_mat(rng, s_, rank, 0.25, 2, zero_prob=0.15) for s_ in shape]
+        w = np.ones(rank) if rng.random() < 0.6 else np.array([rng.choice([0.5, 2.0, 1.0]) for _ in range(rank)])
+        nm = rng.random() < 0.3 and rank == 1 and order == 2          # normalised order-3 runs cost 10+ CPU s in exact rationals (107-bit square roots)
+        u = rng.random()
+        fixed = None if u < 0.5 else [] if u < 0.7 else [rng.randrange(order)]
+        n = rng.choice([1, 1, 2]) if (rank == 1 and not nm and order == 2) else 1
+        st, r = quiet_call(lambda: non_negative_parafac(X.copy(), rank, n_iter_max=n, init=(w.copy(), [f.copy() for f in Fs]), tol=0, mask=mask.copy(),
+                                                        normalize_factors=nm, fixed_modes=None if fixed is None else list(fixed)))
+        if st == "reject":
+            IMPL_REJECTS.append({"corr": "non_negative_parafac (mask)", "raised": r, "tensor": X, "mask": mask, "weights": w, "factors": Fs, "normalize": nm, "fixed": fixed, "n": n})
+        if st != "ok" or not finite_all(r[0], *r[1]):
+            continue
+        op = (f"(OMuCpMask {C.q(eps)} {C.qtensor(shape, [float(x) for x in X.reshape(-1)])} {C.qtensor(shape, [float(x) for x in mask.reshape(-1)])} {qvec_lit(w)} "
+              f"{qmats_lit(Fs)} {C.boolc(nm)} {optfixed_lit(fixed)} {n}%nat)")
+        out.append((op, ATOL_TINY, r[0], list(r[1]), {"corr": "non_negative_parafac (masked)", "tensor": X, "mask": mask, "weights": w, "factors": Fs, "normalize": nm,
+                                                      "fixed": fixed, "n": n}))
+    return out
+
+
+def corr_hals_cold(rng, tier):
+    """round 8: hals_nnls called WITHOUT a start (V=None): the answer of tl.solve(UtU, UtM) is recorded (harness-level interposition), the clipping, the scaling by
+    sum(UtM * V) / sum(UtU * V V^T) (which can be negative) and the sweeps are the model's; and hals_nnls(..., nonzero_rows=True) from a warm start on inputs on which
+    binary floating point is exact (dyadic data, power-of-two diagonal of UtU, epsilon = 0): the all-zero row is replaced by eps(float64) * max(V), compared exactly"""
+    import tensorly as tl
+    from tensorly.solvers import nnls as NN
+    out = []
+    for k in range(8 if tier == "quick" else 60):
+        r, n = rng.randint(1, 3), rng.randint(1, 3)
+        A = np.array([[rng.gauss(0, 1) for _ in range(r)] for _ in range(r + rng.randint(0, 2))])
+        if rng.random() < 0.3:
+            A = np.abs(A)              # positively correlated columns: negative scaling factors of the cold start become likely
+        G = A.T @ A
+        if not np.all(np.isfinite(G)) or np.linalg.cond(G) > 1e4:
+            continue
+        UtM = np.array([[rng.gauss(0, 1) for _ in range(n)] for _ in range(r)]) * rng.choice([1.0, 1.0, -1.0])
+        eps = rng.choice([0.0, 0.0, 1e-8, 0.25])
+        sp, rg = rng.choice([None, None, 0.25]), rng.choice([None, None, 0.5])
+        it = rng.choice([0, 1, 1, 2])
+        tape = []
+        orig = tl.solve
+        def rec(a, b):
+            x = orig(a, b); tape.append(np.array(x, copy=True)); return x
+        tl.solve = rec
+        try:
+            st, V = C.call_impl(lambda: NN.hals_nnls(UtM.copy(), G.copy(), None, n_iter_max=it, tol=0, sparsity_coefficient=sp, ridge_coefficient=rg, epsilon=eps), timeout=60)
+        finally:
+            tl.solve = orig
+        if st != "ok" or len(tape) != 1 or not finite_all(V, tape[0]):
+            continue
+        S0 = tape[0]
+        Vc = np.clip(S0, 0, None)
+        nrm = float(np.sum(G * (Vc @ Vc.T)))
+        if 0 < nrm < 1e-9 or (np.abs(S0) < 1e-9).any() and False:
+            continue
+        scale = max(1.0, float(np.abs(UtM).max()), float(np.abs(np.asarray(V)).max()), float(np.abs(S0).max()))
+        op = f"(OHalsCold {C.q(eps)} {C.opt(sp, C.q)} {C.opt(rg, C.q)} {qmat_lit(UtM)} {qmat_lit(G)} {qmat_lit(S0)} {it}%nat)"
+        out.append((op, Fraction(scale) / 10 ** 8, [], [np.asarray(V)], {"corr": "hals_nnls cold start (V=None)", "UtM": UtM, "UtU": G, "solve_answer": S0, "epsilon": eps,
+                                                                          "sparsity": sp, "ridge": rg, "n_iter_max": it,
+                                                                          "scaling_factor_negative": bool(nrm > 0 and float(np.sum(UtM * Vc)) < 0)}))
+    epsm = float(tl.eps(np.float64))
+    for k in range(10 if tier == "quick" else 60):
+        r, n = rng.choice([1, 1, 2, 2, 3]), rng.randint(1, 3)
+        G = dy_mat(rng, r, r, -2, 2)
+        G = (G + G.T) / 2
+        for i in range(r):
+            G[i, i] = rng.choice([1.0, 2.0, 4.0, 0.5])
+        UtM = dy_mat(rng, r, n, -4, 1)          # mostly negative right-hand sides: whole rows are clipped to zero
+        if rng.random() < 0.7:                  # the LAST row all negative (reset there keeps the arithmetic exact), the rows before it clearly positive
+            UtM[:r - 1, :] = dy_mat(rng, r - 1, n, 3, 6) if r > 1 else UtM[:0, :]
+            UtM[r - 1, :] = -abs(dy(rng, 1, 4))
+        V = dy_mat(rng, r, n, 0, 2, zero_prob=0.2)
+        sp = rng.choice([None, None, 0.25, 1.0])
+        it = rng.choice([1, 1, 2]) if r == 1 else 1
+        st, Vout = C.call_impl(lambda: NN.hals_nnls(UtM.copy(), G.copy(), V.copy(), n_iter_max=it, tol=0, sparsity_coefficient=sp, epsilon=0.0, nonzero_rows=True), timeout=60)
+        if st != "ok" or not finite_all(Vout):
+            continue
+        # binary floating point stays exact as long as no row BEFORE the last one was reset to eps * max(V) (a 2^-52-sized term would then be added to few-bit dyadics)
+        reset = [i for i, row in enumerate(np.asarray(Vout)) if len(set(row.tolist())) == 1 and 0 < row[0] < 1e-12]
+        if any(i < r - 1 for i in reset):
+            continue
+        op = f"(OHalsNzr {C.q(epsm)} {C.q(0.0)} {C.opt(sp, C.q)} {C.opt(None, C.q)} {qmat_lit(UtM)} {qmat_lit(G)} {qmat_lit(V)} {it}%nat)"
+        out.append((op, Fraction(0), [], [np.asarray(Vout)], {"corr": "hals_nnls (nonzero_rows=True, exact dyadic inputs)", "UtM": UtM, "UtU": G, "V": V, "sparsity": sp, "n_iter_max": it,
+                                                             "rows_reset": int(sum(1 for row in np.asarray(Vout) if len(set(row.tolist())) == 1 and 0 < row[0] < 1e-12))}))
+    return out
+
+
+EXTRA_CORR = []
+
+
 def run_correspondence(chk, rng):
     del IMPL_REJECTS[:]
     del OWN_LS_MISMATCH[:]
@@ -1466,10 +1603,13 @@ def run_correspondence(chk, rng):
     groups += corr_ccp_spec(random.Random(chk.seed * 7919 + 13), chk.tier)
     groups += corr_hals_cp_undeclared(random.Random(chk.seed * 7919 + 17), chk.tier)
     groups += corr_line(rng, chk.tier, chk)
+    rng8 = random.Random(chk.seed * 7919 + 23)          # round 8 streams
+    groups += corr_mu_cp_mask(rng8, chk.tier)
+    groups += corr_hals_cold(rng8, chk.tier)
     groups += corr_sign(chk)
     groups += corr_flow(chk)
     # interleave the groups so that every shard gets a mix of cheap and expensive cases
-    nsh = max(1, -(-len(groups) // (9 if chk.tier == "quick" else 15)))
+    nsh = max(1, -(-len(groups) // (11 if chk.tier == "quick" else 15)))
     groups = [g for k in range(nsh) for g in groups[k::nsh]]
     cases, meta = [], []
     for op, atol, w, Fs, m in groups:
@@ -1481,7 +1621,7 @@ def run_correspondence(chk, rng):
     for i in (0, len(cases) // 2, len(cases) - 1):
         if 0 <= i < len(cases):
             chk.sample({"correspondence": meta[i]["corr"], "inputs": C.jsonable({k: v for k, v in meta[i].items() if k != "corr"})})
-    shard = 9 if chk.tier == "quick" else 15
+    shard = 11 if chk.tier == "quick" else 15
     failing, n_eval, broken = C.run_case_shards("C10", HEADER, "case", cases, shard=shard, timeout=400)
     chk.checker_cmds.append("coqc (vm_compute) on generated build/cases/C10/*.v: Corr.C10.failing")
     # a shard that ran out of time / memory (shared machine) is re-run case by case; a single case that still exceeds its budget
@@ -1648,7 +1788,7 @@ def corr_parafac2_iter(rng, tier):
     from tensorly.decomposition import _parafac2 as P2
     from tensorly.cp_tensor import cp_normalize
     out = []
-    nrun = 2 if tier == "quick" else 30          # ~15 CPU s per case (two fixed-point runs of up to 2 x 3 x 100 inner sweeps)
+    nrun = 1 if tier == "quick" else 8           # ~13-20 CPU s per case (two fixed-point runs of up to 2 x 3 x 100 inner sweeps); the multi-iteration runs (OP2Run / OP2RunG) cover the same skeleton
     for k in range(nrun):
         I, J, K = rng.randint(2, 3), rng.randint(2, 4), rng.randint(2, 3)
         R = rng.randint(1, min(J, K, 2))
@@ -1810,11 +1950,11 @@ def corr_parafac2_run(rng, tier):
     from tensorly.decomposition import parafac2
     from tensorly.decomposition import _parafac2 as P2
     out = []
-    nrun = 3 if tier == "quick" else 14
+    nrun = 3 if tier == "quick" else 9
     for k in range(nrun):
         I, J, K = rng.randint(2, 3), rng.randint(2, 3), rng.randint(2, 3)
         ls = (k % 3 == 0)
-        R = 1 if (tier == "quick" or ls or rng.random() < 0.6) else 2       # rank 2: every inner HALS call runs its 100 sweeps (kept to short runs)
+        R = 2 if (tier != "quick" and k == 1) else 1       # rank 2: every inner HALS call runs its 100 sweeps (~20 CPU s per case: one short run per thorough check)
         n = rng.choice([7, 9]) if ls else (rng.choice([2, 3, 4]) if R == 1 else 2)
         slices = [np.array([[rng.gauss(0, 1) for _ in range(K)] for _ in range(J)]) for _ in range(I)]
         if rng.random() < 0.3:
@@ -1861,6 +2001,24 @@ def corr_parafac2_run(rng, tier):
 OWN_LS_MISMATCH = []
 
 
+def parafac2_projects_user_line_step():
+    """behavioural probe (round 8): does parafac2 project the step returned by a CALLER-MADE line-search object on the declared modes?  The current code uses the step as it is
+    (known finding parafac2_user_linesearch_own_nn_modes); the candidate repair build/fix_candidates/C10_parafac2_user_linesearch_v2.diff clips it.  The executed model of OP2RunG
+    follows whichever behaviour the implementation shows: clipping on ls_nn and then on nn is clipping on their union (Model/NonnegP2Ls.v parafac2_ls with ls_nn := ls_nn ++ nn)."""
+    from tensorly.decomposition import parafac2
+    from tensorly.decomposition._parafac2 import _BroThesisLineSearch
+
+    class Probe(_BroThesisLineSearch):
+        def line_step(self, iteration, tensor_slices, factors_last, weights, factors, projections, rec_error):
+            fs = [np.array(f, copy=True) for f in factors]
+            fs[0] = -np.abs(fs[0]) - 1.0
+            return fs, projections, rec_error
+    X = np.arange(1.0, 13.0).reshape(2, 3, 2) % 5 + 0.5
+    st, r = quiet_call(lambda: parafac2(X, 1, n_iter_max=7, init="random", random_state=0, nn_modes=[0], linesearch=Probe(1.0, "truncated_svd", nn_modes=[]), tol=0,
+                                        normalize_factors=False, n_iter_parafac=1), timeout=60)
+    return bool(st == "ok" and (np.asarray(r[1][0]) >= 0).all())
+
+
 def corr_parafac2_run_g(rng, tier):
     """parafac2(nn_modes = a PARTIAL list or 'all', init=(weights, factors, projections), tol=0, n_iter_max=n), linesearch in {False, True, a _BroThesisLineSearch
     instance made by the caller with its own nn_modes}: the undeclared modes go through tl.solve (elimination inside Coq), the line search clips on the
@@ -1869,7 +2027,8 @@ def corr_parafac2_run_g(rng, tier):
     from tensorly.decomposition import parafac2
     from tensorly.decomposition import _parafac2 as P2
     out = []
-    nrun = 4 if tier == "quick" else 18
+    post_clip = parafac2_projects_user_line_step()
+    nrun = 3 if tier == "quick" else 12
     for k in range(nrun):
         I, J, K = rng.randint(2, 3), rng.randint(2, 3), rng.randint(2, 3)
         kind = ("user", "none", "own", "user")[k % 4]
@@ -1924,12 +2083,13 @@ def corr_parafac2_run_g(rng, tier):
         lines = [steps[i][0] if i in steps else None for i in range(n)]
         accepts = [bool(steps[i][1]) if i in steps else False for i in range(n)]
         Ts_lit = "[" + "; ".join(C.qtensor(T_.shape, [float(x) for x in T_.reshape(-1)]) for T_ in Ts) + "]"
-        op = (f"(OP2RunG {Ts_lit} {qvec_lit(w)} {qmats_lit(Fs)} {C.nat_list(nn)} {C.nat_list(mode_list(ls_nn))} 1%nat {C.boolc(nm)} {C.q(1e-8)} {opt_list_lit(lines)} "
+        op = (f"(OP2RunG {Ts_lit} {qvec_lit(w)} {qmats_lit(Fs)} {C.nat_list(nn)} {C.nat_list(sorted(set(mode_list(ls_nn)) | set(nn)) if post_clip else mode_list(ls_nn))} 1%nat {C.boolc(nm)} {C.q(1e-8)} {opt_list_lit(lines)} "
               f"[{'; '.join(C.boolc(a) for a in accepts)}])")
         scale = max(1.0, max(float(np.abs(f).max()) for f in r[1]), float(np.abs(r[0]).max()))
         out.append((op, Fraction(scale) / 10 ** 7, r[0], list(r[1]),
                     {"corr": "parafac2 complete run, partial nn_modes" + {"none": "", "own": ", own line search", "user": ", user-supplied line-search object"}[kind],
                      "slices": slices, "weights": w, "factors": Fs, "normalize": nm, "nn_modes": nn, "linesearch": kind, "linesearch_nn_modes": ls_nn, "n": n,
+                     "parafac2_projects_the_returned_line_step_on_the_declared_modes": post_clip,
                      "line_search_iterations": sorted(steps), "accepted": [i for i in sorted(steps) if steps[i][1]]}))
     return out
 
@@ -2003,7 +2163,7 @@ def corr_hals_cp_undeclared(rng, tier):
     Hadamard Gram of the other factors before and after the run)."""
     from tensorly.decomposition import non_negative_parafac_hals
     out = []
-    nrun = 4 if tier == "quick" else 30
+    nrun = 4 if tier == "quick" else 14
     for k in range(nrun):
         order = rng.choice([2, 3, 3])
         shape = tuple(rng.randint(2, 3 if tier == "quick" else 4) for _ in range(order))
